@@ -619,7 +619,7 @@ def _leaf_pruning(ctx, R, rid, closure):
           "Cable>Wire) of every enumeration-side factory call — reported only when definitely ill-typed; H4 is_valid has a case for each "
           "item kind of the grammar; H6 the name-map walkers and HRef.name agree on separator, top-name slice and bus suffix; H7 the "
           "downward search descends into a child that is both a target and an ancestor of a target; H8 the ancestor walks of "
-          "is_valid/is_unique use the cursor, not self; H7b both work lists re-queue what they discover and nothing but `already in the set` can keep an ancestor out of the bound set; H11 every yield is de-duplicated on the value it yields and the already-returned set is subtracted from the name-map set after its last insertion; H12 a reference taken from the work list is used only after its validity test, for every item kind (must-dataflow). Decides canonical-object and well-formedness clauses; completeness/uniqueness of "
+          "is_valid/is_unique use the cursor, not self; H7b both work lists re-queue what they discover and nothing but `already in the set` can keep an ancestor out of the bound set; H11 every yield is de-duplicated on the value it yields and the already-returned set is subtracted from the name-map set after its last insertion; H12 a reference taken from the work list is used only after its validity test, for every item kind (must-dataflow); H13 the wire / cable enumerations prune their descent by is_leaf(), never by the absence of child instances (a cell may consist of wires only). Decides canonical-object and well-formedness clauses; completeness/uniqueness of "
           "the enumeration is a graph property and is not decided.")
 def check_c11(ctx, R):
     P = ctx.P
